@@ -12,7 +12,8 @@ RULE = ('part "pairs": all 256 single bytes and all 65,536 byte pairs through p8
         'invariants (256 entries, index == code, spellings distinct, prefix-free); part "long": '
         'Hypothesis byte strings up to 4096 bytes incl. glyph-dense ones; part "file": one-line carts '
         'written to .p8 and read back. Non-trivial = the string contains a byte >= 0x80 or < 0x20 '
-        '(a byte whose spelling is not its ASCII self); distinct by the byte string.')
+        '(a byte whose spelling is not its ASCII self); distinct by the byte string.'
+        ' Part "file_big": > 64 KiB of UTF-8 (24k characters of glyph comment lines at seven alignments; one 22k-glyph line with escapes) through the .p8 writer and reader, and every line of the form __X__ with X a byte >= 0x80 or a near-miss of a section header inside a long string.')
 ASSUMPTIONS = ['the 256 spellings in P8SCII_CHARSET are taken as data; whether they are the glyphs PICO-8 '
                'itself writes cannot be checked here (no PICO-8 binary)']
 LEVEL_TEXT = ('Exploration with an exhaustive core: every byte and every byte pair is round-tripped, which '
